@@ -409,7 +409,7 @@ func init() {
 				for _, a := range w.necessaryAtoms(f, site) {
 					// rechecking configured; pool not empty; the loop over the block's txs ran to its end; (v1) the
 					// argument-shape assertion that panics otherwise
-					ok := regexp.MustCompile(`^true\(\w+\.config\.Recheck\)$|^0 (<|!=) \w+\.Size\(\)$|^\w+\.Size\(\) (>|!=) 0$|^0 (<|!=) \w+\.txs\.Len\(\)$|^` + fwdIdx + ` >= len\((txs|blockTxs)\)$|^len\(blockTxs\) == len\(deliverTxResponses\)$`).MatchString(a)
+					ok := regexp.MustCompile(`^true\(\w+\.config\.Recheck\)$|^0 (<|!=) \w+\.Size\(\)$|^\w+\.Size\(\) (>|!=) 0$|^0 (<|!=) \w+\.txs\.Len\(\)$|^` + fwdIdx + ` >= len\((txs|blockTxs)\)$|^len\((txs|blockTxs)\) <= ` + fwdIdx + `$|^len\(blockTxs\) == len\(deliverTxResponses\)$`).MatchString(a)
 					c.Check(ok, fk+" :: recheck happens after every block", w.ipos(site), a, "the recheck additionally requires ["+a+"]: after a block for which that does not hold, transactions the application no longer accepts stay in the pool")
 				}
 			}
